@@ -7,7 +7,7 @@ LEVEL = 'proof'
 EXPLANATION = ('Re-run executes exactly the out-of-date tasks: postconditions of decide_new_state on a DONE task (kept only if every dependency is DONE with end <= start and no hard dependency FAILED/SKIPPED, environment untouched; an up-to-date task is kept), last_end_time (None iff no dependency or one without end clock, else the maximum; loop invariant), worker publishes the clocks of this run before the status, merge_done_tasks merges exactly the DONE entries. Two-run histories on all DAGs <= 3 tasks run natively as the labelled bounded stand-in.')
 ASSUMPTIONS = su.ASSUMPTIONS
 TRUSTED = su.TRUSTED
-UNITS = 'decide decide_waiting last_end_time enqueue worker master schedule og independence env_locks merge_done dg_add_node dg_add_dependency dg_remove_node dg_flatten dg_histories env_conformance native_rerun native_sweep'.split()
+UNITS = 'decide decide_waiting last_end_time enqueue worker master schedule scheduler_init og independence env_locks merge_done dg_add_node dg_add_dependency dg_remove_node dg_flatten dg_histories env_conformance native_rerun native_sweep'.split()
 
 
 def units(tier):
